@@ -12,6 +12,8 @@ import (
 	"sort"
 	"strings"
 
+	"golang.org/x/tools/go/packages"
+
 	"golang.org/x/tools/go/cfg"
 )
 
@@ -1802,6 +1804,9 @@ func ruleStateless(rule string, rels ...string) func(*Ctx) {
 							case *types.Basic:
 								continue // plain constants-as-vars (strings, numbers)
 							}
+							if frozenTable(p, v) {
+								continue // a dispatch table: literal, elements are functions or constants, never written
+							}
 							bad = append(bad, id.Name+" "+v.Type().String()+" at "+c.pos(id.Pos()))
 						}
 					}
@@ -1813,7 +1818,83 @@ func ruleStateless(rule string, rels ...string) func(*Ctx) {
 	}
 }
 
+// frozenTable: v is a package-level map, slice or array of functions or basic values (or structs of those) that is
+// initialised by a composite literal and never written afterwards - a dispatch table, not state.
+func frozenTable(p *packages.Package, v *types.Var) bool {
+	var elem types.Type
+	switch t := v.Type().Underlying().(type) {
+	case *types.Map:
+		elem = t.Elem()
+	case *types.Slice:
+		elem = t.Elem()
+	case *types.Array:
+		elem = t.Elem()
+	default:
+		return false
+	}
+	var plain func(t types.Type, depth int) bool
+	plain = func(t types.Type, depth int) bool {
+		switch u := t.Underlying().(type) {
+		case *types.Basic, *types.Signature:
+			return true
+		case *types.Struct:
+			if depth > 2 {
+				return false
+			}
+			for i := 0; i < u.NumFields(); i++ {
+				if !plain(u.Field(i).Type(), depth+1) {
+					return false
+				}
+			}
+			return true
+		}
+		return false
+	}
+	if !plain(elem, 0) {
+		return false
+	}
+	literal, written := false, false
+	for _, file := range p.Syntax {
+		ast.Inspect(file, func(n ast.Node) bool {
+			switch x := n.(type) {
+			case *ast.ValueSpec:
+				for i, nm := range x.Names {
+					if p.TypesInfo.Defs[nm] == types.Object(v) && i < len(x.Values) {
+						if _, ok := ast.Unparen(x.Values[i]).(*ast.CompositeLit); ok {
+							literal = true
+						}
+					}
+				}
+			case *ast.AssignStmt:
+				for _, l := range x.Lhs {
+					l = ast.Unparen(l)
+					if ix, ok := l.(*ast.IndexExpr); ok {
+						l = ast.Unparen(ix.X)
+					}
+					if id, ok := l.(*ast.Ident); ok && p.TypesInfo.Uses[id] == types.Object(v) {
+						written = true
+					}
+				}
+			case *ast.UnaryExpr:
+				if id, ok := ast.Unparen(x.X).(*ast.Ident); ok && x.Op == token.AND && p.TypesInfo.Uses[id] == types.Object(v) {
+					written = true
+				}
+			case *ast.CallExpr:
+				// delete(m, k), clear(m)
+				if id, ok := ast.Unparen(x.Fun).(*ast.Ident); ok && (id.Name == "delete" || id.Name == "clear") && len(x.Args) > 0 {
+					if a, ok := ast.Unparen(x.Args[0]).(*ast.Ident); ok && p.TypesInfo.Uses[a] == types.Object(v) {
+						written = true
+					}
+				}
+			}
+			return true
+		})
+	}
+	return literal && !written
+}
+
 func init() {
+	extend("C03", ruleStateless("C03.stateless-compression", "pkg/compression"))
 	extend("C08", ruleStateless("C08.stateless-verification", "pkg/signature", "pkg/recovery"))
 	extend("C09", ruleStateless("C09.stateless-decryption", "pkg/encryption", "pkg/recovery"))
 }
@@ -1934,6 +2015,22 @@ func ruleC10ErrorsNotDropped(c *Ctx) {
 			if isMethod(cs.Callee, "io", "PipeWriter", "Close") || isMethod(cs.Callee, "io", "PipeWriter", "CloseWithError") {
 				c.ok(rule, f, construct, cs.Call.Pos(), false, "exempt (%s): closing a pipe writer always returns nil", how)
 				continue
+			}
+			// in-memory writers of the standard library are documented never to fail
+			if fn, ok := cs.Callee.(*types.Func); ok {
+				if sig, ok := fn.Type().(*types.Signature); ok && sig.Recv() != nil {
+					rt := types.Unalias(sig.Recv().Type())
+					if pt, ok := rt.(*types.Pointer); ok {
+						rt = types.Unalias(pt.Elem())
+					}
+					if nt, ok := rt.(*types.Named); ok && nt.Obj().Pkg() != nil {
+						q := nt.Obj().Pkg().Path() + "." + nt.Obj().Name()
+						if (q == "strings.Builder" || q == "bytes.Buffer") && strings.HasPrefix(fn.Name(), "Write") {
+							c.ok(rule, f, construct, cs.Call.Pos(), false, "exempt (%s): %s.%s always returns a nil error", how, q, fn.Name())
+							continue
+						}
+					}
+				}
 			}
 			if why, ok := exempt[name]; ok {
 				c.ok(rule, f, construct, cs.Call.Pos(), false, "exempt (%s): %s", how, why)
@@ -2261,6 +2358,19 @@ func ruleC14SizeAsksUnderlying(c *Ctx) {
 				}
 			}
 		}
+		// len(b.data): the content itself is asked
+		ast.Inspect(f.Body(), func(m ast.Node) bool {
+			if call, ok := m.(*ast.CallExpr); ok && len(call.Args) == 1 {
+				if id, ok := ast.Unparen(call.Fun).(*ast.Ident); ok {
+					if b, ok := f.Pkg.TypesInfo.Uses[id].(*types.Builtin); ok && b.Name() == "len" && usesObj(f.Pkg.TypesInfo, call.Args[0], recv) {
+						if _, isSlice := f.Pkg.TypesInfo.TypeOf(call.Args[0]).Underlying().(*types.Slice); isSlice {
+							asks = true
+						}
+					}
+				}
+			}
+			return true
+		})
 		c.verdictIf(asks, rule, f, "Size source", f.Decl.Pos(), "the size is asked from the underlying file/buffer",
 			"Size() does not ask the underlying file or buffer (Stat/Len) but returns separately tracked state: overwriting at an offset, or truncating through another path, makes it disagree with the content length that is flushed")
 	}
